@@ -24,25 +24,10 @@ def exactAt (src : List Ch) (n line : Nat) : Bool :=
   | some pre => line == nlCount pre
   | none => false
 
-/-- the token's text contains no line break (offsets not on boundaries count as "no") -/
-def noBreakInside (src : List Ch) (l : Lexed) : Bool :=
-  match prefixAt l.startByte src, prefixAt l.endByte src with
-  | some a, some b => nlCount a == nlCount b
-  | _, _ => false
-
-/-- the one token kind excluded from `lines_exact_partial` (finding F-C09-1): a format-options
-token that contains a line break -/
-def badFormatToken (src : List Ch) (l : Lexed) : Bool := l.fromFormat && !noBreakInside src l
-
 /-- consecutive non-error tokens tile the input from byte `a` on -/
 def Chain : Nat → List Lexed → Prop
   | _, [] => True
   | a, l :: ls => (l.tok ≠ .error → l.startByte = a ∧ l.startByte ≤ l.endByte) ∧ Chain l.endByte ls
-
-/-- `P` holds for every token before the first bad format token -/
-def AllBeforeBad (src : List Ch) (P : Lexed → Prop) : List Lexed → Prop
-  | [] => True
-  | l :: ls => badFormatToken src l = false → (P l ∧ AllBeforeBad src P ls)
 
 /-! ## generic run lemma -/
 
@@ -78,7 +63,7 @@ theorem tokens_contiguous (src : List Ch) (ht : TableOk src) : Chain 0 (lexAll s
       by_cases he : d.tok = .error
       · simp [he, Chain, lexedOf]
       · simp only [he, if_false]
-        obtain ⟨hinv', h1, h2, _⟩ := stepD_inv false src s s' d ht hinv hstep he (by simp)
+        obtain ⟨hinv', h1, h2, _⟩ := stepD_inv false src s s' d ht hinv hstep he
         refine ⟨fun _ => ⟨h1, by simp [lexedOf, h1, h2]⟩, ?_⟩
         exact ih s' hinv'
 
@@ -106,7 +91,7 @@ theorem tokens_on_boundaries (src : List Ch) (ht : TableOk src) :
         subst hl
         exact absurd he hne
       · simp only [he, if_false, List.mem_cons] at hl
-        obtain ⟨hinv', h1, _, _⟩ := stepD_inv false src s s' d ht hinv hstep he (by simp)
+        obtain ⟨hinv', h1, _, _⟩ := stepD_inv false src s s' d ht hinv hstep he
         rcases hl with hl | hl
         · subst hl
           obtain ⟨pre, post, e1, e2, _⟩ := hinv
@@ -115,51 +100,42 @@ theorem tokens_on_boundaries (src : List Ch) (ht : TableOk src) :
                  boundaryAt_of src pre' post' _ e1' (by simp [lexedOf, e2'])⟩
         · exact ih s' hinv' l hl hne
 
-/-- **Exact lines (partial: finding F-C09-1 excluded).** For every non-error token before the first
-format-options token that contains a line break, the reported start line and end line equal the
-number of line breaks before the token's start and end. -/
-theorem lines_exact_partial (src : List Ch) (ht : TableOk src) :
-    AllBeforeBad src (fun l => l.tok ≠ .error →
+/-- **Exact lines.** For every non-error token the reported start line and end line equal the number
+of line breaks before the token's start and end. (Since the repair of F-C09-1 — commit 0591829,
+`consume_format_options` tracks its position per character — this holds without exception; before
+it, format-options tokens containing a line break had to be excluded.) -/
+theorem lines_exact (src : List Ch) (ht : TableOk src) :
+    ∀ l ∈ lexAll src, l.tok ≠ .error →
       exactAt src l.startByte l.span.start.line = true ∧
-      exactAt src l.endByte l.span.stop.line = true) (lexAll src) := by
-  suffices H : ∀ fuel s, Inv true src s → AllBeforeBad src (fun l => l.tok ≠ .error →
+      exactAt src l.endByte l.span.stop.line = true := by
+  suffices H : ∀ fuel s, Inv true src s → ∀ l ∈ lexFuel src fuel s, l.tok ≠ .error →
       exactAt src l.startByte l.span.start.line = true ∧
-      exactAt src l.endByte l.span.stop.line = true) (lexFuel src fuel s) by
+      exactAt src l.endByte l.span.stop.line = true by
     exact H _ _ (inv_init true src)
   intro fuel
   induction fuel with
-  | zero => intro s _; simp [lexFuel, AllBeforeBad]
+  | zero => intro s _ l hl; simp [lexFuel] at hl
   | succ fuel ih =>
-    intro s hinv
-    simp only [lexFuel]
+    intro s hinv l hl hne
+    simp only [lexFuel] at hl
     cases hstep : stepD src s with
-    | none => simp [AllBeforeBad]
+    | none => simp [hstep] at hl
     | some ds =>
       obtain ⟨d, s'⟩ := ds
-      simp only
+      simp only [hstep] at hl
       by_cases he : d.tok = .error
-      · simp only [he, if_true, AllBeforeBad]
-        intro _
-        exact ⟨fun h => absurd (by simp [lexedOf, he]) h, trivial⟩
-      · simp only [he, if_false, AllBeforeBad]
-        intro hbad
-        -- the step keeps the line invariant because the token is not a bad format token
-        have hprev : s'.prev = s.cur := by
-          obtain ⟨_, h1, _, _⟩ := stepD_inv false src s s' d ht
-            (by obtain ⟨a, b, h1, h2, _, h4, h5⟩ := hinv; exact ⟨a, b, h1, h2, by simp, h4, h5⟩) hstep he (by simp)
-          exact h1
-        have hgood : true = true → d.fromFormat = true →
-            ∀ a b, prefixAt s.cur src = some a → prefixAt s'.cur src = some b → nlCount b = nlCount a := by
-          intro _ hf a b ha hb
-          simp only [badFormatToken, lexedOf, hf, Bool.true_and, Bool.not_eq_false', noBreakInside,
-            hprev, ha, hb] at hbad
-          have := hbad; simp at this; omega
-        obtain ⟨hinv', h1, _, h4⟩ := stepD_inv true src s s' d ht hinv hstep he hgood
-        refine ⟨fun _ => ?_, ih s' hinv'⟩
-        obtain ⟨pre, post, e1, e2, e3, _⟩ := hinv
-        obtain ⟨pre', post', e1', e2', e3', _⟩ := hinv'
-        exact ⟨exactAt_of src pre post _ _ e1 (by simp [lexedOf, h1, e2]) (by simp [lexedOf, h4, e3 rfl]),
-               exactAt_of src pre' post' _ _ e1' (by simp [lexedOf, e2']) (by simp [lexedOf, e3' rfl])⟩
+      · simp only [he, if_true, List.mem_singleton] at hl
+        subst hl
+        exact absurd he hne
+      · simp only [he, if_false, List.mem_cons] at hl
+        obtain ⟨hinv', h1, _, h4⟩ := stepD_inv true src s s' d ht hinv hstep he
+        rcases hl with hl | hl
+        · subst hl
+          obtain ⟨pre, post, e1, e2, e3, _⟩ := hinv
+          obtain ⟨pre', post', e1', e2', e3', _⟩ := hinv'
+          exact ⟨exactAt_of src pre post _ _ e1 (by simp [lexedOf, h1, e2]) (by simp [lexedOf, h4, e3 rfl]),
+                 exactAt_of src pre' post' _ _ e1' (by simp [lexedOf, e2']) (by simp [lexedOf, e3' rfl])⟩
+        · exact ih s' hinv' l hl hne
 
 /-- consecutive tokens: each span starts where the previous one stopped, and a `NewLine` token
 stops at column 0 -/
@@ -191,7 +167,7 @@ theorem column_reset_newline_partial (src : List Ch) (ht : TableOk src) :
       by_cases he : d.tok = .error
       · simp [he, SpanChain, lexedOf]
       · simp only [he, if_false]
-        obtain ⟨hinv', _, _, h4⟩ := stepD_inv false src s s' d ht hinv hstep he (by simp)
+        obtain ⟨hinv', _, _, h4⟩ := stepD_inv false src s s' d ht hinv hstep he
         refine ⟨fun _ => ⟨by simp [lexedOf, h4], ?_⟩, ih s' hinv'⟩
         intro hnl
         simp only [lexedOf] at hnl ⊢
@@ -210,29 +186,28 @@ theorem column_reset_newline_partial (src : List Ch) (ht : TableOk src) :
             rw [← hs']
             simp [applyDecision, applyMove, hm]
 
-/-! ## the excluded case is real: F-C09-1 -/
+/-! ## the formerly excluded case (F-C09-1, repaired) -/
 
 /-- ASCII character with the Unicode facts the real tables give it (width 1, XID flags as listed) -/
 def ascii (cp : Nat) (idS idC : Bool) : Ch := { cp := cp, width := 1, idStart := idS, idCont := idC, g1 := 1, g2 := 1 }
 
-/-- the witness `'{a:⏎}'` (the line feed has width 0 and is the last-but-two character) -/
+/-- the former witness `'{a:⏎}'` (the line feed has width 0) -/
 def witnessF1 : List Ch :=
   [ascii 39 false false, ascii 123 false false, ascii 97 true true, ascii 58 false false,
    { cp := 10, width := 0, idStart := false, idCont := false, g1 := 1, g2 := 1 },
    ascii 125 false false, ascii 39 false false]
 
-/-- **Negation witness for the unrestricted statement (F-C09-1).** On `'{a:⏎}'` the format-options
-token (bytes 4..5) reports end line 0 although one line break precedes its end; the same input
-replayed on `koto_lexer` gives the same token (known finding F-C09-1). -/
-theorem lines_exact_witness :
-    ∃ l ∈ lexAll witnessF1, l.tok ≠ .error ∧ l.fromFormat = true ∧
-      exactAt witnessF1 l.endByte l.span.stop.line = false := by
-  refine ⟨⟨.stringLiteral, 4, 5, ⟨⟨0, 4⟩, ⟨0, 5⟩⟩, 0, true⟩, by decide, by decide, rfl, by decide⟩
+/-- On `'{a:⏎}'` the format-options token (bytes 4..5) now reports end line 1, column 0, and all
+seven tokens have exact lines (before commit 0591829 the model — like the code — reported line 0). -/
+theorem format_options_line_break_counted :
+    (⟨.stringLiteral, 4, 5, ⟨⟨0, 4⟩, ⟨1, 0⟩⟩, 0, true⟩ : Lexed) ∈ lexAll witnessF1 ∧
+    (lexAll witnessF1).all (fun l => exactAt witnessF1 l.endByte l.span.stop.line) = true := by
+  constructor <;> decide
 
 /-! ## non-vacuity -/
 
 /-- the table assumption is satisfiable by a non-trivial input that exercises strings, format
-options and line breaks, and `lines_exact_partial` says something about all of its tokens -/
+options and line breaks, and `lines_exact` says something about all of its tokens -/
 example : TableOk witnessF1 := by
   intro c hc h
   simp only [witnessF1, List.mem_cons, List.mem_nil_iff, or_false] at hc
@@ -246,7 +221,8 @@ def sampleOk : List Ch :=
    ascii 98 true true, ascii 39 false false,
    { cp := 10, width := 0, idStart := false, idCont := false, g1 := 1, g2 := 1 }]
 
-example : (lexAll sampleOk).length = 8 ∧ (lexAll sampleOk).all (fun l => !badFormatToken sampleOk l) = true := by
+example : (lexAll sampleOk).length = 8 ∧
+    (lexAll sampleOk).all (fun l => exactAt sampleOk l.startByte l.span.start.line) = true := by
   decide
 
 end KotoVerif.C09
